@@ -275,8 +275,10 @@ theorem fRun_never_crashes (o : Oracle) (p : Port) (ops : List FOp) : ∃ f, fRu
 /-- **segmentation_independent, end to end (telnet port, line mode).**
     Take any schedule `ops` of client sends (any bytes, any chunking), read events and command extractions on a fresh
     telnet connection, and let the run satisfy the explicit side condition (`clean`): at every read the pending,
-    not yet extracted text is below the discard threshold of get_user_data, and at every extraction it does not
-    fill the buffer.  Then, whatever the segmentation and the interleaving:
+    not yet extracted text is below the discard threshold of get_user_data OR contains a complete command (then the
+    read is held back, fix 57d7cb1) - i.e. `clean` fails only when an unfinished line longer than the threshold is
+    pending, which get_user_data discards; and at every extraction the pending text does not fill the buffer.
+    Then, whatever the segmentation and the interleaving:
     * the lines delivered so far, followed by the commands still complete in the pending text, are exactly
       `lines received` — the specification applied to the bytes received so far, which knows nothing of reads;
     * `received ++ socket = sent`;
